@@ -113,3 +113,56 @@ Example C05_example :
    [Track 0 (MkO 77 2 1 5 18446744073709551615)]; [MetaSave [(0, MkD 77 2 1 5)] [0]];
    [Track 0 (MkO 77 3 1 5 18446744073709551615)]; []; [MetaSave [(0, MkD 77 3 1 5)] [0]]; []; [MetaSave [(0, MkD 77 3 1 5)] [0]]].
 Proof. vm_compute. reflexivity. Qed.
+
+(* ---- the container behind the tracked positions, the dirty set and the loaded documents ----
+   Model/Stream.v treats stream.offsets / stream.dirtyOffsets (wrapper.ConcurrentSwissMap) as total functions.
+   Model/SwissMap.v models the container itself; tie to /repo: Corr/CorrSwissMap.v (operation sequences on the real
+   wrapper).  For EVERY operation sequence the container is that function: a lookup after the sequence is the lookup
+   in the function updated step by step ... *)
+From Verif Require Import Model.SwissMap Proofs.SwissMapProofs.
+
+Theorem C05_container_refines : forall ops k,
+  sm_load (fst (sm_run [] ops)) k = fold_left spec_step ops (fun _ => None) k.
+Proof. exact (fun ops => run_refines ops [] (fun _ => None) (fun _ => eq_refl)). Qed.
+Print Assumptions C05_container_refines.
+
+(* ... and what a save walks (Range / ToMap, hence the dump handed to Metadata.Save and the JSON written by the file
+   backend) is exactly the graph of that function, every key once: nothing acknowledged is left out of a dump, nothing
+   is listed twice with two values, and Count is the number of keys held *)
+Theorem C05_container_listing : forall ops,
+  let m := fst (sm_run [] ops) in
+  NoDup (map fst m) /\
+  (forall k v, In (k, v) m <-> sm_load m k = Some v) /\
+  (forall k, In k (map fst m) <-> sm_load m k <> None).
+Proof.
+  intros ops m.
+  assert (H : sm_inv m) by (apply run_inv; constructor).
+  exact (conj H (conj (fun k v => in_load m k v H) (keys_load m))).
+Qed.
+Print Assumptions C05_container_listing.
+
+(* what each operation shows: Load and the condition function of StoreIf see the current value; a walk that is never
+   told to stop visits every entry, one that is told to stop at its n-th call makes exactly min(n, size) calls *)
+Theorem C05_container_outputs : forall m o,
+  snd (sm_step m o) =
+  match o with
+  | SStore _ _ | SDelete _ => OUnit
+  | SLoad k | SStoreIf k _ _ => OLoad (sm_load m k)
+  | SCount => OCount (length m)
+  | SRange None => ORange (length m)
+  | SRange (Some n) => ORange (Nat.min n (length m))
+  | SToMap | SJson => OMap m
+  end.
+Proof. exact step_out. Qed.
+Print Assumptions C05_container_outputs.
+
+(* a conditional store with the monotone condition never lowers a held value *)
+Theorem C05_container_monotone_update : forall m k v p, sm_load m k = Some p ->
+  exists q, sm_load (fst (sm_step m (SStoreIf k 3 v))) k = Some q /\ p <= q /\ v <= q.
+Proof. exact storeif_monotone. Qed.
+Print Assumptions C05_container_monotone_update.
+
+Example C05_container_example :
+  snd (sm_run [] [SStore 3 30; SStore 1 10; SStore 3 31; SStoreIf 1 3 5; SStoreIf 2 1 20; SDelete 1; SCount; SRange (Some 1%nat); SRange None; SLoad 1; SToMap]) =
+  [OUnit; OUnit; OUnit; OLoad (Some 10); OLoad None; OUnit; OCount 2; ORange 1; ORange 2; OLoad None; OMap [(2, 20); (3, 31)]].
+Proof. vm_compute. reflexivity. Qed.
